@@ -19,6 +19,7 @@ import (
 	"github.com/criyle/go-sandbox/pkg/mount"
 	"github.com/criyle/go-sandbox/runner"
 	"github.com/criyle/go-sandbox/runner/unshare"
+	"golang.org/x/sys/unix"
 	"pgregory.net/rapid"
 
 	"verif/internal/probe"
@@ -29,6 +30,7 @@ type c05Mount struct {
 	Kind   string // bind-ro-dir bind-rw-dir bind-ro-file bind-rw-file tmpfs tmpfs-size proc-ro proc-rw bind-missing
 	Target string
 	Src    int
+	Raw    int // binds: 0 = Builder.WithBind; 1..3 = a hand-written mount.Mount with other (equally valid) flag words
 }
 
 type c05Case struct {
@@ -37,6 +39,7 @@ type c05Case struct {
 	Links   [][2]string // container: link path, target
 	Masks   []string    // container: paths (relative to a mount) to mask
 	DevNull bool        // container: bind /dev/null into the container (masks need it, see DESIGN.md finding 11)
+	InitCmd bool        // container: an InitCommand (the probe, bound read-only) runs before the first program
 }
 
 func c05GenCase(rt *rapid.T) c05Case {
@@ -80,6 +83,9 @@ func c05GenCase(rt *rapid.T) c05Case {
 			}
 		}
 		m := c05Mount{Kind: kind, Target: target, Src: i}
+		if strings.HasPrefix(kind, "bind-r") && rapid.IntRange(0, 2).Draw(rt, "rawbind") == 0 {
+			m.Raw = rapid.IntRange(1, 3).Draw(rt, "rawflags")
+		}
 		c.Mounts = append(c.Mounts, m)
 		if kind == "bind-ro-dir" || kind == "bind-rw-dir" || kind == "tmpfs" || kind == "tmpfs-size" {
 			dirs = append(dirs, placed{target, kind})
@@ -104,6 +110,10 @@ func c05GenCase(rt *rapid.T) c05Case {
 			cand = rapid.Permutation(cand).Draw(rt, "maskorder")
 		}
 		c.Masks = cand
+		c.InitCmd = rapid.IntRange(0, 3).Draw(rt, "initcmd") == 0
+		if c.InitCmd {
+			c.DevNull = true // os/exec needs it for the command's stdio
+		}
 	}
 	return c
 }
@@ -240,18 +250,29 @@ func c05Run(c c05Case, dir string, rec *vh.Recorder) error {
 		src      string
 	}
 	var exps []exp
+	withBind := func(m c05Mount, src string, ro bool) {
+		if m.Raw == 0 {
+			mb.WithBind(src, m.Target, ro)
+			return
+		}
+		fl := uintptr([]int{0, unix.MS_BIND, unix.MS_BIND | unix.MS_REC, unix.MS_BIND | unix.MS_NOSUID | unix.MS_NODEV}[m.Raw])
+		if ro {
+			fl |= unix.MS_RDONLY
+		}
+		mb.WithMount(mount.Mount{Source: src, Target: m.Target, Flags: fl})
+	}
 	for i, m := range c.Mounts {
 		e := exp{m: m, present: true}
 		switch m.Kind {
 		case "bind-ro-dir", "bind-rw-dir":
 			e.src = srcDir(i)
 			e.writable = m.Kind == "bind-rw-dir"
-			mb.WithBind(e.src, m.Target, !e.writable)
+			withBind(m, e.src, !e.writable)
 		case "bind-ro-file", "bind-rw-file":
 			e.src = filepath.Join(srcDir(i), "file")
 			e.writable = m.Kind == "bind-rw-file"
 			e.isFile = true
-			mb.WithBind(e.src, m.Target, !e.writable)
+			withBind(m, e.src, !e.writable)
 		case "bind-missing":
 			e.present = false
 			mb.WithBind(filepath.Join(dir, "src", "does-not-exist"), m.Target, true)
@@ -271,6 +292,9 @@ func c05Run(c c05Case, dir string, rec *vh.Recorder) error {
 	}
 	if c.Impl == "container" && c.DevNull {
 		mb.WithBind("/dev/null", "dev/null", false)
+	}
+	if c.Impl == "container" && c.InitCmd {
+		mb.WithBind(probe.Path(), "vinit", true)
 	}
 	mb.FilterNotExist()
 
@@ -378,6 +402,11 @@ func c05Run(c c05Case, dir string, rec *vh.Recorder) error {
 		}
 	case "container":
 		b := &container.Builder{Mounts: mb.Mounts, WorkDir: "/", MaskPaths: c.Masks}
+		if c.InitCmd {
+			var is probe.Script
+			is.Add("exit:0")
+			b.InitCommand = append([]string{"/vinit"}, is.Argv(newTag(), 2)[1:]...)
+		}
 		if len(c.Masks) == 0 {
 			b.MaskPaths = []string{"/nonexistent-mask"}
 		}
@@ -541,6 +570,9 @@ func c05Run(c c05Case, dir string, rec *vh.Recorder) error {
 		if c.DevNull {
 			top["dev"] = true
 		}
+		if c.InitCmd {
+			top["vinit"] = true
+		}
 		for _, l := range c.Links {
 			top[strings.Split(strings.TrimPrefix(l[0], "/"), "/")[0]] = true
 		}
@@ -608,7 +640,7 @@ func c05Run(c c05Case, dir string, rec *vh.Recorder) error {
 			if e.writable && hasOpt(mi.Opts, "ro") {
 				return vh.Violf("C05:rw-mount-refuses", "mount %s (%s) has options %q; %s", mi.Point, e.m.Kind, mi.Opts, desc)
 			}
-		case c.Impl == "container" && (mi.Point == "/dev/null" || isMaskPoint(mi.Point, c.Masks)):
+		case c.Impl == "container" && (mi.Point == "/dev/null" || (c.InitCmd && mi.Point == "/vinit") || isMaskPoint(mi.Point, c.Masks)):
 		case strings.HasPrefix(mi.Point, "/proc/") && mi.FsType != "proc":
 			// sub-mounts that come with a fresh proc instance (binfmt_misc etc.) would be fstype-specific; none expected
 			return vh.Violf("C05:host-mount-visible", "unexpected mount %s (%s from %s); %s", mi.Point, mi.FsType, mi.Source, desc)
@@ -665,7 +697,7 @@ func keys(m map[string]bool) []string {
 	return out
 }
 
-const c05Rule = "case = mount table of 1..7 entries (read-only / writable binds of directories and of single files, tmpfs with and without size, proc ro/rw, nested targets inside tmpfs and inside binds, a bind whose source does not exist and must be filtered) over generated host source trees plus a host secret outside every source; for the container additionally symlinks, mask paths (file, directory, missing) and with/without /dev/null; run through unshare.Runner (raw in-child mount sequence) or container.Builder; " +
+const c05Rule = "case = mount table of 1..7 entries (read-only / writable binds of directories and of single files, tmpfs with and without size, proc ro/rw, nested targets inside tmpfs and inside binds, a bind whose source does not exist and must be filtered) over generated host source trees plus a host secret outside every source; for the container additionally symlinks, mask paths (file, directory, missing), with/without /dev/null, with/without an InitCommand; binds through Builder.WithBind or as hand-written mount.Mount records with other valid flag words; run through unshare.Runner (raw in-child mount sequence) or container.Builder; " +
 	"oracle = the probe's results of mkdir/create/symlink/mknod/open-for-write/truncate/chmod/unlink on the root and on every mount (EROFS unless declared writable), effects in the bind sources on the host, a recursive listing of / and /../.. (only configured top-level names, the secret nowhere), /old_root gone, and /proc/<pid>/mountinfo read from the host (root ro tmpfs + exactly the configured entries, ro/rw as declared); non-trivial = >=1 read-only bind, >=1 writable entry and a nested or file target"
 
 func TestC05Unshare(t *testing.T) { c05Test(t, "unshare") }
